@@ -76,12 +76,19 @@ class Sched:
         self.eager_start = False        # default-schedule variant: a started thread runs before its starter continues
         self.prefer = None
         self.handoff = False            # default-schedule variant: a thread woken by the running one runs first
+        self.env_first = False          # default-schedule variant: the thread an environment thread was fired over stays
+        self._held = None               # paused (while anything else can run) until that environment thread has finished
         self._prev_enabled = set()
         self.died = []                  # (name, exception repr, traceback) for library threads that died
 
     # ---- bookkeeping -------------------------------------------------------------------------
     def elapsed(self):
         return round(self.now - self.t0, 9)
+
+    def _deadline(self, timeout):
+        """Virtual instants live on a 1 ns grid relative to the start: 0.2 + 0.2 and 0.4 are the same instant (a tie that is
+        explored), whatever the floating-point sum of the absolute clock values says."""
+        return self.t0 + round(self.now - self.t0 + timeout, 9)
 
     def me(self):
         vt = self.by_ident.get(_thread.get_ident())
@@ -233,6 +240,16 @@ class Sched:
                     if fresh:
                         default = fresh[0]
                 self._prev_enabled = set(t.id for t in nonlazy)
+                if self._held is not None:
+                    fired, held = self._held
+                    if fired.state == DONE or held.state == DONE:
+                        self._held = None
+                    elif default is held:
+                        # the interrupted thread waits for the environment event to be handled completely (the error path
+                        # runs to its end, with whatever other threads it needs), if anything else can run at all
+                        others = [t for t in nonlazy if t is not held]
+                        if others:
+                            default = fired if fired in others else others[0]
             if self.now > self.time_limit:
                 self._abort('timelimit')
             options = [default] + [t for t in self.threads
@@ -244,6 +261,8 @@ class Sched:
                 k = self.chooser(len(options), label)
                 if not 0 <= k < len(options):
                     raise HarnessError('chooser returned %r for %d options' % (k, len(options)))
+                if self.env_first and k > 0 and options[k].lazy and cur is not options[k] and cur in nonlazy:
+                    self._held = (options[k], cur)
                 return options[k]
             return default
 
@@ -309,7 +328,7 @@ class Sched:
             timeout = 0
         cur.state = BLOCKED
         cur.pred = pred
-        cur.deadline = None if timeout is None else self.now + timeout
+        cur.deadline = None if timeout is None else self._deadline(timeout)
         nxt = self._pick(cur, label)
         if nxt is not cur:
             self._handoff(cur, nxt)
@@ -332,7 +351,7 @@ class Sched:
         cur.label = label
         cur.state = BLOCKED
         cur.pred = _never
-        cur.deadline = None if timeout is None else self.now + timeout
+        cur.deadline = None if timeout is None else self._deadline(timeout)
         nxt = self._pick(cur, label)
         if nxt is not cur:
             self._handoff(cur, nxt)
